@@ -72,6 +72,9 @@ def analyse(ctx, run, bools, reports):
     bools.append((f'String.eqb (render_header {_slist(map(_b, outputs))} {_slist(_b(n) for n, _, _ in inputs)}) {_b(lines[0] + chr(10))}',
                   lambda: ctx.violate('corr', 'header', 'header line differs from the modelled one', inp=_inp(run),
                                       expected='render_header outputs inputs', observed=lines[0])))
+    if header != outputs + [n for n, _, _ in inputs]:
+        ctx.violate('property', 'alignment:header', 'header columns are not the requested outputs followed by the sampled inputs, the order in '
+                    'which every row is written', inp=_inp(run), expected=outputs + [n for n, _, _ in inputs], observed=header)
     # --- every successful work package left one well-formed row, nothing else is in the row area
     found_all = None
     if any(t['trace'] for t in run.ok_tasks):
@@ -161,7 +164,8 @@ def judge(ctx, runs, bools, max_rows):
 
 def specs(ctx):
     rnd, q = ctx.rng, ctx.quick
-    geo_st = (mc.MC_TESTS / 'MC_GEOPHIRES_Settings_file.txt').read_text().rsplit('ITERATIONS', 1)[0]
+    # + a label that is a substring of another report line ('Drilling and completion costs per well'): the match must be exact
+    geo_st = (mc.MC_TESTS / 'MC_GEOPHIRES_Settings_file.txt').read_text().rsplit('ITERATIONS', 1)[0] + 'OUTPUT, Drilling and completion costs\n'
     geo2_st = (mc.MC_TESTS / 'MC_GEOPHIRES_Settings_file-2.txt').read_text().rsplit('ITERATIONS', 1)[0]
     geo = (mc.MC_TESTS / 'GEOPHIRES-example1.txt').read_text()
     geo2 = (mc.MC_TESTS / 'GEOPHIRES-example_SHR-2.txt').read_text()
